@@ -1,5 +1,5 @@
 ------------------------------ MODULE Passage ------------------------------
-(* Extension "chain" (host C09), shared part: how ONE request passes a pipeline of
+(* Extension "restchain" (host C09), shared part: how ONE request passes a pipeline of
    nested HTTP middlewares.
 
    A pipeline is a sequence of layers, outermost first; its last element is the
